@@ -15,6 +15,8 @@ pub mod reqid;
 pub mod snmp;
 mod socket;
 mod util;
+#[cfg(gufo_snmp_verif)]
+mod verif;
 
 /// Module index
 #[pymodule]
@@ -31,5 +33,7 @@ fn gufo_snmp(py: Python, m: &Bound<'_, PyModule>) -> PyResult<()> {
     m.add_class::<snmp::op::GetIter>()?;
     m.add_function(wrap_pyfunction!(util::get_master_key, m)?)?;
     m.add_function(wrap_pyfunction!(util::get_localized_key, m)?)?;
+    #[cfg(gufo_snmp_verif)]
+    verif::register(m)?;
     Ok(())
 }
